@@ -131,7 +131,7 @@ func (c *child) kill() {
 	<-c.dead
 }
 
-var httpClient = &http.Client{Timeout: 60 * time.Second, Transport: &http.Transport{MaxIdleConnsPerHost: 4, DisableCompression: true}}
+var httpClient = &http.Client{Timeout: 25 * time.Second, Transport: &http.Transport{MaxIdleConnsPerHost: 4, DisableCompression: true}}
 
 // ---------------------------------------------------------------------------- requests
 
@@ -699,6 +699,8 @@ type runner struct {
 	statusCt   map[string]int
 	mutCt      map[string]int
 	deaths     int
+	restarts   int
+	abort      bool // too many server deaths: stop generating, report what was found
 	baseFailed map[string]bool
 	judged     int
 	unjudged   int
@@ -708,6 +710,10 @@ type runner struct {
 func (rn *runner) restart() {
 	if rn.w.c != nil {
 		rn.w.c.kill()
+	}
+	rn.restarts++
+	if rn.restarts > 8 {
+		rn.abort = true
 	}
 	c, err := startChild(rn.root, rn.nchild)
 	rn.nchild++
@@ -723,7 +729,14 @@ func (rn *runner) restart() {
 	rn.w.cols = map[string]map[string]*colInfo{}
 	rn.w.digest = ""
 	rn.setup = nil
+	if rn.abort {
+		return
+	}
+	gen := rn.restarts
 	for i := range baseCols {
+		if rn.restarts != gen || rn.abort {
+			return // a setup request killed the server: the nested restart already rebuilt the state
+		}
 		rn.ensureBase(&baseCols[i])
 	}
 	rn.refresh()
@@ -762,6 +775,7 @@ func (rn *runner) ensureBase(cs *colSpec) {
 	rn.w.known[key] = map[string]bool{}
 	delete(rn.w.taint, key)
 	rn.specs[key] = cs
+	rn.refresh()
 	// a few valid points so that searches have something to find (several shards for base1)
 	npts := 12
 	if cs.plan == "TINY" {
@@ -778,18 +792,17 @@ func (rn *runner) ensureBase(cs *colSpec) {
 			pts.A = append(pts.A, rn.g.point(cs, true))
 		}
 	}
-	ireq := request{cs.user, cs.plan, "POST", api + "/collections/" + cs.id + "/points", "application/json", Obj("points", pts).JSON()}
+	iapi := api[1:]
 	if cs.id == "mixed" {
-		// the second vector index must stay consistent: insert through v2 only
-		ireq.path = "/v2/collections/" + cs.id + "/points"
+		iapi = "v2" // the second vector index must stay consistent: insert through v2 only
 	}
-	resp := rn.w.c.do(ireq)
-	if resp.status != 200 {
-		fmt.Fprintf(os.Stderr, "setup: inserting into %s answered %d %s\n", key, resp.status, resp.body)
-		rn.fail(fmt.Sprintf("setup-insert-refused:%d", resp.status), "a batch of valid points was not accepted: "+string(resp.body), []string{req.line(), ireq.line()})
+	if st := rn.modelledReq(iapi+"Insert", iapi, cs.user, cs.plan, "POST", cs.id, "/points", Obj("points", pts), false, "setup", false); st != 200 {
+		fmt.Fprintf(os.Stderr, "setup: inserting into %s answered %d\n", key, st)
+		if st > 0 {
+			rn.baseFailed[key] = true
+		}
 		return
 	}
-	rn.w.hist[key] = append(rn.w.hist[key], ireq.line())
 	for _, p := range pts.A {
 		idn := p.Get("_id")
 		if idn == nil {
@@ -837,7 +850,7 @@ func run(seed uint64, n int, dir string, deepmp int) {
 	t0 := time.Now()
 	rn.pagingProbe()
 	rn.boundarySweep()
-	for i := 0; i < n; i++ {
+	for i := 0; i < n && !rn.abort; i++ {
 		rn.iteration(i)
 	}
 	rn.pureOps() // last: status disagreements come first in the diff
@@ -1034,6 +1047,9 @@ func schemaTokens(s models.IndexSchema) string {
 
 func (rn *runner) iteration(i int) {
 	g := rn.g
+	if rn.abort {
+		return
+	}
 	// collections that cannot be read back any more (reported when it happened) are removed
 	if len(rn.w.broken) > 0 {
 		for key := range rn.w.broken {
